@@ -61,7 +61,9 @@ class Ctx:
             self.seed = int(os.environ.get("VERIF_SEED", "1"))
         except ValueError:
             self.seed = 1
-        self.work = os.path.join(VERIF, "work", pid)
+        alt = os.environ.get("VERIF_REPO")
+        suffix = ("-alt-" + hashlib.sha1(os.path.abspath(alt).encode()).hexdigest()[:6]) if alt and os.path.abspath(alt) != REPO else ""
+        self.work = os.path.join(VERIF, "work", pid + suffix)
         shutil.rmtree(self.work, ignore_errors=True)
         os.makedirs(self.work, exist_ok=True)
         self.violations = []       # list of dicts
@@ -325,9 +327,20 @@ class Ctx:
                 return
         self.violations.append({"signature": signature, "what": what, "case": case, "obs": obs, "extra": extra})
 
+    def evidence_dir(self):
+        """Evidence of registered runs goes to /verif/evidence; runs against a scratch
+        tree (VERIF_REPO, negative controls) must not overwrite it."""
+        alt = os.environ.get("VERIF_REPO")
+        if alt and os.path.abspath(alt) != REPO:
+            d = os.environ.get("VERIF_ALT_EVIDENCE", "/tmp/gvh-alt-evidence")
+        else:
+            d = os.path.join(VERIF, "evidence")
+        os.makedirs(os.path.join(d, "replays"), exist_ok=True)
+        return d
+
     def finish(self, level, rule, explanation=None, exhaustive=False, extra_cov=None):
         wall = time.time() - self.t0
-        os.makedirs(os.path.join(VERIF, "evidence", "replays"), exist_ok=True)
+        EVD = self.evidence_dir()
         for fid, h in sorted(self.known_hits.items()):
             print("KNOWN-FINDING: property=%s %s [%s] (%d cases, e.g. %s)" % (self.pid, h["what"], fid, h["n"], h["sig"]))
         seen = set()
@@ -339,7 +352,7 @@ class Ctx:
             nrep += 1
             if nrep > 20:
                 continue
-            path = os.path.join(VERIF, "evidence", "replays", "%s-%d.json" % (self.pid, nrep))
+            path = os.path.join(EVD, "replays", "%s-%d.json" % (self.pid, nrep))
             with open(path, "w") as f:
                 json.dump({"property": self.pid, "tier": self.tier, "seed": self.seed, "signature": v["signature"],
                            "what": v["what"], "case": v["case"], "obs": v["obs"], "extra": v["extra"],
@@ -362,7 +375,7 @@ class Ctx:
         ev = {"property_id": self.pid, "tier": self.tier, "seed": self.seed, "level": level,
               "coverage": cov, "assumptions": self.assumptions, "wall_s": round(wall, 2),
               "violations": len(seen)}
-        with open(os.path.join(VERIF, "evidence", self.pid + ".json"), "w") as f:
+        with open(os.path.join(EVD, self.pid + ".json"), "w") as f:
             json.dump(ev, f, indent=1, sort_keys=True)
         log("[done] %s tier=%s violations=%d known=%d wall=%.1fs" % (self.pid, self.tier, len(seen), len(self.known_hits), wall))
         shutil.rmtree(self.work, ignore_errors=True)
